@@ -72,7 +72,7 @@ def s4(chk: Check, proj: Project, m) -> None:
     # _resolve_media) before they read them - otherwise what `.media` memoises depends on whether `.template` came first
     ga, gm_ = m.func("_get_comp_cls_attr"), m.func("_get_comp_cls_media")
     res_a = [c for c in calls(ga, "_resolve_media")]
-    res_m = [c for c in calls(gm_, "_resolve_media")]
+    res_m = [c for c in calls(gm_, "_resolve_media")] + [c for c in calls(gm_, "_resolve_component_relative_files")]
     # where the class's Media input is read: the definition of the variable that `extend` is taken from
     ext = [x for x in ast.walk(gm_) if isinstance(x, ast.Call) and norm(x.func) == "getattr" and len(x.args) >= 2 and isinstance(x.args[1], ast.Constant) and x.args[1].value == "extend" and isinstance(x.args[0], ast.Name)]
     reads = [st for st, v in assignments(gm_, ext[0].args[0].id) if v is not None] if ext else []
@@ -113,6 +113,13 @@ def s4(chk: Check, proj: Project, m) -> None:
 def s4b_merge_loop(chk: Check, m, rule: str = "S4") -> None:
     """Every selected base contributes: in the merge loop a base is skipped only when its memo entry is missing."""
     f = m.func("_get_comp_cls_media")
+    # order clause: the merged Media keeps ONE LIST PER DECLARATION (as django.forms.Media.__add__ does); building a new
+    # Media from the flattened `_js` / `_css` of an intermediate result turns a partial order into a total one
+    flat = [c for c in ast.walk(f) if isinstance(c, ast.Call) and any(isinstance(k.value, ast.Attribute) and k.value.attr in ("_js", "_css") for k in c.keywords)
+            and any(isinstance(a, (ast.For, ast.While)) for a in ancestors(c))]
+    chk.ob(rule, "component_media:_get_comp_cls_media:declared-lists-kept", m.loc(flat[0]) if flat else m.loc(f), not flat,
+           "no intermediate result is re-flattened: the memo keeps the declared lists, Django orders the files consistently with all of them" if not flat else
+           f"`{short(flat[0], 70)}` rebuilds the Media from the FLATTENED lists after every base: a flat list is a total order and invents constraints between files that no declaration relates - B1 [b], B2 [b, a], C [a] are mutually consistent, yet C.media is [a, b] (with a spurious MediaOrderConflictWarning)")
     loops = [lp for lp in ast.walk(f) if isinstance(lp, ast.For) and any(isinstance(c, ast.Call) and isinstance(c.func, ast.Attribute) and c.func.attr == "get" and norm(c.func.value) == "media_cache" for c in ast.walk(lp))]
     if len(loops) != 1:
         chk.undecided(rule, "component_media:_get_comp_cls_media:merge-loop-skips-only-missing", m.loc(f), f"{len(loops)} merge loops")
